@@ -18,6 +18,7 @@ CONSTANTS
   AtomicPT = TRUE
   AtomicPut = FALSE
   NotifyAfterStore = TRUE
+  DrainThenSend = TRUE
   AtomicSubscribe = TRUE
 INVARIANTS Linearizable
 SYMMETRY Sym
